@@ -300,7 +300,7 @@ def guard (pwOk : Str → Str → Bool) (pst : PSt) : Cmd → St × Decision
        (g.1, match g.2 with
          | .ok _ => .reply .nameTaken
          | .error .key =>
-           if hasLineBreak newname then .reply .invalid
+           if isUserHostmask newname || hasLineBreak newname then .reply .invalid
            else if (liveUser g.1 u).checkHostmask g.1.db.timeout g.1.now p true || checkPassword pwOk pst u.id pw
              then .run (.setName u.id newname)
            else .reply .silent          -- the command has no `else:` branch
